@@ -22,6 +22,7 @@ type Env struct {
 	pkgName string
 	head    *State // state at the head of the current loop iteration (backedge clauses)
 	at      *ssa.BasicBlock // program point used to pick among same-named locals
+	cur     *State // inside old(): the state old() was entered from (local variables keep their current value there)
 }
 
 func (e *Env) with(name string, t Term) *Env {
@@ -246,6 +247,9 @@ func (e *Env) eval(x SExpr) Term {
 			e.fail("old() not allowed here")
 		}
 		n := *e
+		if n.cur == nil && e.st != e.old {
+			n.cur = e.st
+		}
 		n.st = e.old
 		return n.eval(x.X)
 	case SCall:
@@ -405,6 +409,11 @@ func (e *Env) ident(name string) Term {
 			}
 		}
 		if a := e.fr.allocByName(name, e.at); a != nil {
+			if e.cur != nil {
+				// inside old(): old() rewinds the heap, not the local variables (a local that is
+				// not a parameter has no meaningful value in the entry state)
+				return e.fr.loadAlloc(e.cur, a)
+			}
 			return e.fr.loadAlloc(e.st, a)
 		}
 		// captured variable of a closure: the free variable is a pointer to it
